@@ -228,3 +228,11 @@ def run(ctx):
     r4_reducer_covers_kinds(ctx)
     r5_update_vault(ctx)
     r6_until_commit_after_each_event(ctx)
+    # shared with C01: a whole-vault rewrite that leaves old rows behind serves
+    # secrets the log (reset from the new vault) does not replay
+    from . import c01
+    c01.r3b_db_rewrite_replaces_rows(ctx)
+    ctx.rules[-1].id = "C02-R7"
+    for inst in ctx.rules[-1].instances:
+        inst["rule"] = "C02-R7"
+        inst["key"] = inst["key"].replace("C01-R3b|", "C02-R7|", 1)
